@@ -133,9 +133,15 @@ func extractHasVals(h *gripql.GraphStatement_Has) []string {
 				vals = []string{l}
 			}
 		case gripql.Condition_WITHIN:
-			v := val.([]interface{})
-			for _, x := range v {
-				vals = append(vals, x.(string))
+			//only a list of strings can be turned into an index lookup
+			if v, ok := val.([]interface{}); ok {
+				for _, x := range v {
+					if l, ok := x.(string); ok {
+						vals = append(vals, l)
+					} else {
+						return []string{}
+					}
+				}
 			}
 		default:
 			// do nothing
